@@ -1,0 +1,85 @@
+//go:build verif
+
+package bondgo
+
+import (
+	"hash/fnv"
+	"os"
+	"runtime"
+	"strconv"
+	"strings"
+	"sync"
+	"time"
+)
+
+// Verification hooks (build tag "verif"): VerifYield is called before the channel
+// operations through which the visitor, Var_assigner and Usage_Monitor hand over to
+// each other, so that a harness can force or randomise the interleaving of the
+// compiler's goroutines and log it. Configuration comes from the environment, because
+// the pipeline is assembled in cmd/bondgo:
+//
+//	VERIF_BONDGO_SCHED=delay:<site-prefix>[,<site-prefix>...]  sleep 3ms at matching sites
+//	VERIF_BONDGO_SCHED=rand:<seed>                             seeded none/yield/sleep at every site
+//	VERIF_BONDGO_LOG=<file>                                    append one line per hook call
+//
+// Without the tag VerifYield is an empty function.
+
+var (
+	verifMu     sync.Mutex
+	verifDelay  []string
+	verifRand   bool
+	verifSeed   uint64
+	verifCount  = map[string]uint64{}
+	verifLog    *os.File
+	verifInited bool
+)
+
+func verifInit() {
+	verifInited = true
+	s := os.Getenv("VERIF_BONDGO_SCHED")
+	switch {
+	case strings.HasPrefix(s, "delay:"):
+		verifDelay = strings.Split(s[len("delay:"):], ",")
+	case strings.HasPrefix(s, "rand:"):
+		verifRand = true
+		verifSeed, _ = strconv.ParseUint(s[len("rand:"):], 10, 64)
+	}
+	if p := os.Getenv("VERIF_BONDGO_LOG"); p != "" {
+		verifLog, _ = os.OpenFile(p, os.O_CREATE|os.O_WRONLY|os.O_APPEND, 0o644)
+	}
+}
+
+// VerifYield perturbs the schedule at the named site.
+func VerifYield(site string) {
+	verifMu.Lock()
+	if !verifInited {
+		verifInit()
+	}
+	n := verifCount[site]
+	verifCount[site] = n + 1
+	if verifLog != nil {
+		verifLog.WriteString(site + "\n")
+	}
+	action := 0
+	for _, p := range verifDelay {
+		if p != "" && strings.HasPrefix(site, p) {
+			action = 3
+		}
+	}
+	if verifRand {
+		h := fnv.New64a()
+		h.Write([]byte(site))
+		h.Write([]byte(strconv.FormatUint(n, 10)))
+		h.Write([]byte(strconv.FormatUint(verifSeed, 10)))
+		action = int(h.Sum64() % 4)
+	}
+	verifMu.Unlock()
+	switch action {
+	case 1:
+		runtime.Gosched()
+	case 2:
+		time.Sleep(200 * time.Microsecond)
+	case 3:
+		time.Sleep(3 * time.Millisecond)
+	}
+}
